@@ -272,7 +272,10 @@ class TR {
     ++L().n_move_asg;
     if (this == &o) {
       ++L().n_self_move;
-      fail("C02", "TR move-assigned onto itself (id %d value %d)", id, v);
+      // like many real types (libstdc++ containers, "release then steal" handles) a self move-assignment clobbers the value
+      fail("C01,C02", "TR move-assigned onto itself (id %d value %d)", id, v);
+      moved = 1;
+      v = -777;
       return *this;
     }
     v = o.v;
@@ -354,7 +357,9 @@ class NTR {
     addr_touch(&o);
     if (this == &o) {
       ++L().n_self_move;
-      fail("C02", "NTR move-assigned onto itself (value %d)", v);
+      fail("C01,C02", "NTR move-assigned onto itself (value %d)", v);
+      moved = 1;
+      v = -777;
       return *this;
     }
     v = o.v;
